@@ -33,6 +33,7 @@ type PFlags struct {
 	NoFaults  bool
 	MaxRec    int // largest argument given to recursion templates
 	HotStr    bool // string literals over the hot alphabet (tab, CR, quotes, JSON-looking multi-line text …) instead of plain ones
+	Malformed bool // malformed special forms among the planted faults (unspecified by the reference interpreter: differential use only)
 	FnEq      bool // = applied to functions (the reference interpreter leaves it unspecified: only for differential use between routes)
 }
 
@@ -392,6 +393,10 @@ func (g *pg) leaf(ty Ty, sc scope) val.V {
 func (g *pg) faulty(sc scope) val.V {
 	g.faults++
 	g.use("fault")
+	if g.f.Malformed && g.chance("malformed", 3) {
+		g.use("malformed-form")
+		return rapid.SampledFrom(MalformedForms).Draw(g.t, "malformedform")
+	}
 	switch g.pick("fault", 9) {
 	case 0:
 		return sym("zz-unbound")
@@ -411,6 +416,34 @@ func (g *pg) faulty(sc scope) val.V {
 		return lst(call("fn", lst(sym("x")), sym("x")), val.I(1), val.I(2))
 	}
 	return call("cons", val.I(1), val.I(2))
+}
+
+// MalformedForms fail in the evaluator itself (not in a builtin, not by throw).
+var MalformedForms = []val.V{
+	call("let", val.I(5), val.I(1)),
+	call("let", lst(sym("a")), sym("a")),
+	call("let", lst(val.I(1), val.I(2)), val.I(1)),
+	call("let"),
+	call("def", val.I(1), val.I(2)),
+	call("def", sym("zz")),
+	call("fn", val.I(1), val.I(2)),
+	lst(call("fn", lst(val.I(1)), val.I(2)), val.I(3)),
+	lst(call("fn", lst(sym("&")), val.I(2)), val.I(3)),
+	call("if"),
+	call("quasiquote"),
+	call("quasiquote", call("unquote")),
+	call("quasiquote", lst(call("splice-unquote"))),
+	call("try", call("catch")),
+	call("try", val.I(1), call("catch", val.I(1), val.I(2))),
+	call("defmacro", sym("zz")),
+	call("defmacro", sym("zz"), val.I(1)),
+	call("eval"),
+	call("macroexpand"),
+	call("throw"),
+	call("unquote", val.I(1)),
+	call("splice-unquote", val.I(1)),
+	call("catch", sym("e"), val.I(1)),
+	call("finally", val.I(1)),
 }
 
 // stmts draws body statements; defs extend the scope of the following forms.
